@@ -13,12 +13,16 @@
    JPEG-LS Golomb writer (JpegLS area), HT block coders (no model), and the assembly of the
    DCT / JPEG-LS / JPEG 2000 encoders: for those the tie is the walker run over every emitted
    stream (harness suite framing/c16.go), which is a search, not a proof.
-   Refuted parts (findings): 16-bit size fields are truncated without error
-   (C16_header_fields_truncate_refuted); a segment whose payload does not fit the 16-bit
-   length is written with a wrapped length (C16_segment_length_overflow_refuted). *)
+   Range facts (not findings on the fixed tree): the round-trip theorems need dimensions in
+   1..65535 - outside it the 16-bit fields drop the high bits (C16_header_fields_outside_dims16)
+   - and the segment theorem needs a payload that fits the 16-bit length
+   (C16_segment_length_overflow_wraps). Since the C17 fixes every Encode rejects arguments
+   outside those ranges: C16_accepted_header_* state the header property for EVERY accepted
+   argument tuple. Known finding left open: HTJ2K codecs declare BitsAllocated as precision
+   (harness signature c16:htj2k-20x:header:precision; no Coq model of the codec glue). *)
 From V Require Import Common.Base Framing.FrmBase Framing.FrmJpeg Framing.FrmJls Framing.FrmJ2k
   Framing.FrmWriters Framing.FrmProofsSeg Framing.FrmProofsHuff Framing.FrmProofsBio
-  Framing.FrmProofsHdr Framing.FrmProofsFrame.
+  Framing.FrmProofsHdr Framing.FrmProofsFrame Framing.FrmValidate Framing.FrmProofsAccepted.
 
 (* Every marker segment WriteSegment emits is consumed by the walkers' segment step exactly:
    marker code, payload and remainder come back, whatever follows. *)
@@ -32,13 +36,15 @@ Example C16_segment_length_nonvacuous :
   read_segment (write_segment 65499 [0; 16; 11] ++ [255; 217]) = SegOk 219 [0; 16; 11] [255; 217].
 Proof. vm_compute. repeat split; discriminate || reflexivity. Qed.
 
-(* ... and a payload of 65534 bytes or more is written with the length reduced modulo 2^16,
-   without an error: the walker then cannot see that segment. *)
-Theorem C16_segment_length_overflow_refuted : forall m data rest,
+(* ... and the length hypothesis is necessary: a payload of 65534 bytes or more is written with
+   the length reduced modulo 2^16, without an error. No encoder reaches this through
+   WriteSegment; jpeg2000.writeTLM would with more than 10921 tile-parts (outside the
+   quantifier: at most 64 tiles). *)
+Theorem C16_segment_length_overflow_wraps : forall m data rest,
   0 <= m < 256 -> 65536 <= zlen data + 2 ->
   read_segment (write_segment (65280 + m) data ++ rest) <> SegOk m data rest.
-Proof. exact segment_length_overflow_refuted. Qed.
-Print Assumptions C16_segment_length_overflow_refuted.
+Proof. exact segment_length_overflow_wraps. Qed.
+Print Assumptions C16_segment_length_overflow_wraps.
 Example C16_segment_length_overflow_nonvacuous :
   let data := repeat 0 (Z.to_nat 65534) in 65536 <= zlen data + 2 /\ segment_length_field data = 0.
 Proof. vm_compute. split; [discriminate | reflexivity]. Qed.
@@ -148,9 +154,9 @@ Theorem C16_header_roundtrip_j2k_cod : forall prog layers mct levels xcbf ycbf h
 Proof. exact j2k_cod_roundtrip. Qed.
 Print Assumptions C16_header_roundtrip_j2k_cod.
 
-(* Outside 1..65535 the JPEG size fields lie (refutes "declares exactly the width/height
-   given" for the arguments the unfixed encoders accept; see C17). *)
-Theorem C16_header_fields_truncate_refuted :
+(* The dims16 hypothesis is necessary: outside 1..65535 the JPEG size fields lie. (Before the
+   C17 fixes the encoders accepted such sizes; now see C16_accepted_header_*.) *)
+Theorem C16_header_fields_outside_dims16 :
   (exists w, 65535 < w /\ parse_sof 3 (lossless_sof3 8 1 w 1) = WBad RSofDims 0) /\
   (exists w, 65535 < w /\
      parse_sof 3 (lossless_sof3 8 1 w 1)
@@ -158,15 +164,81 @@ Theorem C16_header_fields_truncate_refuted :
   (exists h, 65535 < h /\
      parse_sof 0 (baseline_sof0 h 7 1)
      = WOk {| jf_sof := 0; jf_p := 8; jf_y := 1; jf_x := 7; jf_nf := 1; jf_comps := [(0, 1, 1, 0)] |}).
-Proof. exact header_fields_truncate_refuted. Qed.
-Print Assumptions C16_header_fields_truncate_refuted.
+Proof. exact header_fields_outside_dims16. Qed.
+Print Assumptions C16_header_fields_outside_dims16.
 
-Theorem C16_cod_unrepresentable_refuted :
+(* COD cannot carry code-blocks above 4096 samples, progression > 4 or 65536 layers: the
+   parser rejects what writeCOD would write (validateParams now refuses these values). *)
+Theorem C16_cod_rejects_unrepresentable :
   parse_cod (j2k_cod_payload 0 1 false 5 8 8 false true) = WBad RCodSyntax 0 /\
   parse_cod (j2k_cod_payload 5 1 false 5 4 4 false true) = WBad RCodSyntax 0 /\
   parse_cod (j2k_cod_payload 0 65536 false 5 4 4 false true) = WBad RCodSyntax 0.
-Proof. exact j2k_cod_unrepresentable_refuted. Qed.
-Print Assumptions C16_cod_unrepresentable_refuted.
+Proof. exact j2k_cod_rejects_unrepresentable. Qed.
+Print Assumptions C16_cod_rejects_unrepresentable.
+
+
+(* For EVERY argument tuple the encoders accept (guards of FrmValidate = the code after the
+   C17 fixes), the header written declares exactly the arguments. *)
+Theorem C16_accepted_header_baseline : forall a, baseline_accepts a = true ->
+  parse_sof 0 (baseline_sof0 (a_h a) (a_w a) (a_c a))
+  = WOk {| jf_sof := 0; jf_p := 8; jf_y := a_h a; jf_x := a_w a; jf_nf := a_c a;
+           jf_comps := if a_c a =? 1 then [(0, 1, 1, 0)] else [(1, 1, 1, 0); (2, 1, 1, 1); (3, 1, 1, 1)] |}.
+Proof. exact baseline_accepted_header. Qed.
+Print Assumptions C16_accepted_header_baseline.
+
+Theorem C16_accepted_header_extended12 : forall a, a_p a = 12 -> extended_accepts a = true ->
+  parse_sof 1 (seq12_sof1 (a_h a) (a_w a))
+  = WOk {| jf_sof := 1; jf_p := 12; jf_y := a_h a; jf_x := a_w a; jf_nf := 1; jf_comps := [(1, 1, 1, 0)] |}
+  /\ a_c a = 1.
+Proof. exact extended12_accepted_header. Qed.
+Print Assumptions C16_accepted_header_extended12.
+
+Theorem C16_accepted_header_lossless : forall a, lossless_accepts a = true ->
+  parse_sof 3 (lossless_sof3 (a_p a) (a_h a) (a_w a) (a_c a))
+  = WOk {| jf_sof := 3; jf_p := a_p a; jf_y := a_h a; jf_x := a_w a; jf_nf := a_c a;
+           jf_comps := seq_comps (a_c a) |}
+  /\ (1 <= a_x a ->
+      parse_sos (lossless_sos (a_c a) (a_x a))
+      = WOk {| sc_comps := if a_c a =? 1 then [(1, 0, 0)] else [(1, 0, 0); (2, 0, 0); (3, 0, 0)];
+               sc_ss := a_x a; sc_se := 0; sc_ah := 0; sc_al := 0 |}).
+Proof. exact lossless_accepted_header. Qed.
+Print Assumptions C16_accepted_header_lossless.
+
+Theorem C16_accepted_header_sv1 : forall a, sv1_accepts a = true ->
+  parse_sof 3 (lossless_sof3 (a_p a) (a_h a) (a_w a) (a_c a))
+  = WOk {| jf_sof := 3; jf_p := a_p a; jf_y := a_h a; jf_x := a_w a; jf_nf := a_c a;
+           jf_comps := seq_comps (a_c a) |}.
+Proof. exact sv1_accepted_header. Qed.
+Print Assumptions C16_accepted_header_sv1.
+
+Theorem C16_accepted_header_jpegls : forall a, jls_accepts a = true ->
+  parse_sof55 (lossless_sof3 (a_p a) (a_h a) (a_w a) (a_c a))
+  = WOk {| jf_sof := 3; jf_p := a_p a; jf_y := a_h a; jf_x := a_w a; jf_nf := a_c a;
+           jf_comps := seq_comps (a_c a) |}
+  /\ parse_lsos (jls_sos (a_c a) 0)
+     = WOk {| ls_comps := if a_c a =? 1 then [(1, 0)] else [(1, 0); (2, 0); (3, 0)];
+              ls_near := 0; ls_ilv := if a_c a =? 1 then 0 else 2; ls_al := 0; ls_ah := 0 |}.
+Proof. exact jls_accepted_header. Qed.
+Print Assumptions C16_accepted_header_jpegls.
+
+Theorem C16_accepted_header_jpegls_near : forall a, jlsnear_accepts a = true ->
+  parse_sof55 (lossless_sof3 (a_p a) (a_h a) (a_w a) (a_c a))
+  = WOk {| jf_sof := 3; jf_p := a_p a; jf_y := a_h a; jf_x := a_w a; jf_nf := a_c a;
+           jf_comps := seq_comps (a_c a) |}
+  /\ parse_lsos (jls_sos (a_c a) (a_x a))
+     = WOk {| ls_comps := if a_c a =? 1 then [(1, 0)] else [(1, 0); (2, 0); (3, 0)];
+              ls_near := a_x a; ls_ilv := if a_c a =? 1 then 0 else 2; ls_al := 0; ls_ah := 0 |}.
+Proof. exact jlsnear_accepted_header. Qed.
+Print Assumptions C16_accepted_header_jpegls_near.
+
+Example C16_accepted_nonvacuous :
+  baseline_accepts {| a_len := 196605; a_w := 65535; a_h := 1; a_c := 3; a_p := 8; a_x := 1 |} = true /\
+  extended_accepts {| a_len := 131070; a_w := 1; a_h := 65535; a_c := 1; a_p := 12; a_x := 100 |} = true /\
+  lossless_accepts {| a_len := 1536; a_w := 256; a_h := 1; a_c := 3; a_p := 16; a_x := 7 |} = true /\
+  sv1_accepts {| a_len := 300; a_w := 300; a_h := 1; a_c := 1; a_p := 2; a_x := 0 |} = true /\
+  jls_accepts {| a_len := 600; a_w := 300; a_h := 1; a_c := 1; a_p := 9; a_x := 0 |} = true /\
+  jlsnear_accepts {| a_len := 771; a_w := 257; a_h := 1; a_c := 3; a_p := 8; a_x := 127 |} = true.
+Proof. vm_compute. repeat split; reflexivity. Qed.
 
 (* A whole JPEG Lossless / SV1 frame as the encoders assemble it: exactly one well-formed
    codestream whose header is the argument tuple; one more byte after EOI is rejected. *)
